@@ -6,7 +6,7 @@
    (C11_sm4_is_block_cipher). *)
 From Coq Require Import List NArith Arith Bool Lia.
 From Coq Require String.
-From GmsmVerif Require Import Lib.Outcome Gen.SM4Consts SM4.SM4Spec SM4.ModesSpec SM4.ModesModel SM4.ModesProofs SM4.SM4Consts.
+From GmsmVerif Require Import Lib.Outcome Gen.SM4Consts SM4.SM4Spec SM4.ModesSpec SM4.ModesModel SM4.ModesProofs SM4.SM4ConstsBlock SM4.SM4ConstsModes.
 Import ListNotations.
 Local Open Scope nat_scope.
 
@@ -250,7 +250,7 @@ Print Assumptions C11_history_sm4.
 (* ---- 9. the constants the model hard-codes are the constants of the source (Gen/SM4Consts.v) ------------------------ *)
 (* BlockSize in pkcs7Padding and SetIV, the 16-byte windows of the four loops, the complete literal sequences of
    xor, pkcs7Padding, pkcs7UnPadding, SetIV, Sm4Ecb, Sm4Cbc, Sm4CFB, Sm4OFB, and: IV is the only package-level
-   variable of sm4.go besides the constant tables (what record pkg assumes) *)
+   variable of sm4.go besides its mutex ivMu and the constant tables (what record pkg assumes) *)
 Theorem C11_source_constants :
   (forall src, pkcs7Padding src =
      let padding := nlit gen_lits_pkcs7Padding 0 - length src mod nlit gen_lits_pkcs7Padding 1 in
@@ -258,7 +258,7 @@ Theorem C11_source_constants :
   (forall iv pk, SetIV iv pk = if negb (Nat.eqb (length iv) (nlit gen_lits_SetIV 0)) then (Err 1, pk) else (Ok Datatypes.tt, mkPkg iv)) /\
   (forall data i, blk data i = firstn (nlit gen_lits_Sm4Cbc 9) (skipn (nlit gen_lits_Sm4Cbc 6 * i) data)) /\
   gen_lits_pkcs7Padding = [16; 16]%N /\ gen_lits_pkcs7UnPadding = [0; 1; 16; 0; 0]%N /\ gen_lits_SetIV = [16]%N /\
-  gen_pkg_vars_sm4 = sm4_pkg_vars_expected (* "IV", "fk", "ck", "sbox", "sbox0", "sbox1", "sbox2", "sbox3" *).
+  gen_pkg_vars_sm4 = sm4_pkg_vars_expected (* "IV", "ivMu", "fk", "ck", "sbox", "sbox0", "sbox1", "sbox2", "sbox3" *).
 Proof.
   split; [exact pkcs7Padding_at_source|]. split; [exact SetIV_at_source|].
   split; [intros data i; apply (helpers_block_at_source data i)|]. repeat split; reflexivity.
